@@ -171,6 +171,11 @@ class ClientAuthenticator:
                 self.sendAuthMessage(
                     b'ERROR ' + str(e).encode('unicode-escape'))
 
+        else:
+            # The mechanism in use has no data exchange: abandon it and let
+            # the server's REJECTED move us on to the next mechanism
+            self.sendAuthMessage(b'CANCEL')
+
     def _auth_ERROR(self, line):
         log.msg(
             'Authentication mechanism failed: '
